@@ -66,6 +66,17 @@ def handle (op : String) (args : List String) (impl : String) : Option (String Ã
         some ("skip", h)
       | _, _ => some ("skip", "FAILS malformed result")
     | _ => some ("skip", "FAILS malformed result")
+  | "clioutput", [_, _] =>
+    -- the printed report must stay within the same budget as memory: a fixed multiple of the input plus a constant
+    match words impl with
+    | [e, n, o, _] =>
+      match n.toNat?, o.toNat? with
+      | some n, some o =>
+        some ("skip", if e != "0" then s!"FAILS exit_status: exit status {e}"
+          else if o > allocBudget n then s!"FAILS output_bounded: {o} bytes printed for an input of {n} bytes (budget {allocBudget n})"
+          else "holds")
+      | _, _ => some ("skip", "FAILS malformed result")
+    | _ => some ("skip", "FAILS output_bounded: the command did not finish")
   | "unbounded", [_] =>
     match words impl with
     | ["exit", code, _, v] =>
